@@ -764,6 +764,10 @@ pub enum AOp {
     PollRead(u16),
     /// poll_read into a ReadBuf that already holds `.1` bytes (as read_exact / io::copy do after a short read)
     PollReadPrefilled(u16, u8),
+    /// poll_read of a source that appends this many bytes to the caller's buffer and reports an error in the
+    /// same poll (a decoder that fails behind data it has already handed out): the bytes are in the caller's
+    /// buffer, so they count
+    PollReadFillThenErr(u8),
     PollFillBuf,
     Consume(u16),
     PollWrite(u16),
@@ -843,6 +847,24 @@ fn run_async(c: &AsyncCase) -> CaseResult {
                     want += (r1.filled().len() - old.len()) as u64;
                     v.label_if(*pre > 0 && r1.filled().len() > old.len(), "read_into_partly_filled_buffer");
                 }
+            }
+            AOp::PollReadFillThenErr(n) => {
+                struct FillThenErr(usize);
+                impl AsyncRead for FillThenErr {
+                    fn poll_read(self: Pin<&mut Self>, _cx: &mut Context<'_>, buf: &mut ReadBuf<'_>) -> Poll<io::Result<()>> {
+                        let k = self.0.min(buf.remaining());
+                        buf.put_slice(&vec![9u8; k]);
+                        Poll::Ready(Err(io::Error::new(io::ErrorKind::InvalidData, "scripted: error behind data")))
+                    }
+                }
+                let mut rd = pb.wrap_async_read(FillThenErr(*n as usize));
+                let mut b = vec![0u8; *n as usize + 2];
+                let mut rb = ReadBuf::new(&mut b);
+                let r = Pin::new(&mut rd).poll_read(&mut cx, &mut rb);
+                ensure!(matches!(&r, Poll::Ready(Err(e)) if e.kind() == io::ErrorKind::InvalidData), "transparency", "{ctx}: the adaptor returned {r:?} for a source that reports an error");
+                ensure!(rb.filled().len() == *n as usize, "transparency", "{ctx}: data differs");
+                want += *n as u64;
+                v.label_if(*n > 0, "error_reported_together_with_data");
             }
             AOp::PollFillBuf => {
                 let p1 = Pin::new(&mut wrapped).poll_fill_buf(&mut cx).map_ok(|b| b.to_vec()).map_err(|e| e.kind());
@@ -960,6 +982,7 @@ fn async_strategy(tier: Tier) -> BoxedStrategy<AsyncCase> {
     let op = prop_oneof![
         4 => (0u16..80).prop_map(AOp::PollRead),
         2 => (1u16..80, 1u8..40).prop_map(|(n, p)| AOp::PollReadPrefilled(n, p)),
+        1 => (0u8..40).prop_map(AOp::PollReadFillThenErr),
         3 => Just(AOp::PollFillBuf),
         3 => (0u16..=1000).prop_map(AOp::Consume),
         3 => (0u16..80).prop_map(AOp::PollWrite),
@@ -1185,7 +1208,7 @@ pub fn property() -> Property {
                 cases: |t| t.pick(5_000, 250_000),
                 run: run_async,
                 signature: no_signature,
-                essential: &["short_transfer", "pending", "partial_consume", "fill_buf", "stream_items", "read_into_partly_filled_buffer"],
+                essential: &["short_transfer", "pending", "partial_consume", "fill_buf", "stream_items", "read_into_partly_filled_buffer", "error_reported_together_with_data"],
                 workers: w,
                 decode: None,
             }),
